@@ -20,7 +20,9 @@ pub struct Cfg { pub threshold: f64, pub band: f64, pub gain_floor: f64, pub k_i
 #[derive(Serialize, Deserialize, Clone, Debug)]
 pub enum Faults { None, JumpAt(Vec<u64>), EveryReading }
 #[derive(Serialize, Deserialize, Clone, Debug)]
-pub struct HybCase { pub hash_seed: u64, pub seeds: Vec<SeedDecl>, pub nodes: Vec<NodeDecl>, pub cfg: Cfg, pub step_ns: u64, pub faults: Faults, #[serde(default)] pub cap: u64 }
+pub struct HybCase { pub hash_seed: u64, pub seeds: Vec<SeedDecl>, pub nodes: Vec<NodeDecl>, pub cfg: Cfg, pub step_ns: u64, pub faults: Faults, #[serde(default)] pub cap: u64, #[serde(default)] pub pipeline: Option<Pipeline> }
+#[derive(Serialize, Deserialize, Clone, Debug)]
+pub struct Pipeline { pub seeded: Vec<(models::datalog::Fact, f64)>, pub certain: Vec<models::datalog::Fact>, pub rules: Vec<models::datalog::Rule> }
 
 pub struct C08;
 
@@ -164,9 +166,11 @@ impl Prop for C08 {
         // clock step per reading: tiny (budgets never expire by themselves) or a fraction of a budget (they expire mid-phase)
         let step_ns = match cfg.below(4) { 0 | 1 => 1000, 2 => c.topk_budget_us * 1000 / (1 + r.below(40)), _ => c.sdd_budget_us * 1000 / (1 + r.below(80)) }.max(1);
         let faults = match tier { Tier::Quick => match cfg.below(5) { 0 => Faults::None, 1 => Faults::EveryReading, _ => Faults::JumpAt((0..8).map(|_| r.next()).collect()) }, Tier::Thorough => if cfg.chance(1, 10) { Faults::None } else { Faults::EveryReading } };
-        HybCase { hash_seed, seeds, nodes, cfg: c, step_ns, faults, cap: if tier == Tier::Quick { 200 } else { 1500 } }
+        let pipeline = if cfg.chance(1, 4) { Some(gen_pipeline(&mut r)) } else { None };
+        HybCase { hash_seed, seeds, nodes, cfg: c, step_ns, faults, cap: if tier == Tier::Quick { 200 } else { 1500 }, pipeline }
     }
     fn exec(&self, c: &HybCase, ctx: &mut Ctx) -> Option<Violation> {
+        if let Some(p) = &c.pipeline { return exec_pipeline(c, p, ctx); }
         if c.seeds.is_empty() { return None; }
         let nodes = normalize_refs(&c.seeds, &c.nodes);
         let cfg = to_config(&c.cfg);
@@ -248,6 +252,14 @@ impl Prop for C08 {
     }
     fn shrink(&self, c: &HybCase) -> Vec<HybCase> {
         let mut out = vec![];
+        if let Some(p) = &c.pipeline {
+            for x in shrink_vec(&p.seeded) { if !x.is_empty() { out.push(HybCase { pipeline: Some(Pipeline { seeded: x, ..p.clone() }), ..c.clone() }); } }
+            for x in shrink_vec(&p.certain) { out.push(HybCase { pipeline: Some(Pipeline { certain: x, ..p.clone() }), ..c.clone() }); }
+            for x in shrink_vec(&p.rules) { if !x.is_empty() { out.push(HybCase { pipeline: Some(Pipeline { rules: x, ..p.clone() }), ..c.clone() }); } }
+            if !matches!(c.faults, Faults::None) { out.push(HybCase { faults: Faults::None, ..c.clone() }); }
+            if c.step_ns != 1000 { out.push(HybCase { step_ns: 1000, ..c.clone() }); }
+            return out;
+        }
         for ns in shrink_vec(&c.nodes) { if !ns.is_empty() { out.push(HybCase { nodes: ns, ..c.clone() }); } }
         if let Faults::EveryReading = c.faults { out.push(HybCase { faults: Faults::None, ..c.clone() }); }
         if let Faults::JumpAt(v) = &c.faults { out.push(HybCase { faults: Faults::None, ..c.clone() }); for s in shrink_vec(v) { out.push(HybCase { faults: Faults::JumpAt(s), ..c.clone() }); } }
@@ -266,4 +278,100 @@ impl Prop for C08 {
         "soundness only: nothing is required about which result variant comes back or how fast; Indeterminate and UnsafeApproximation are always acceptable".into(),
         "tolerance 1e-9 on probabilities and at the threshold".into() ] }
     fn real_vs_stub(&self) -> serde_json::Value { serde_json::json!({"real": ["shared::hybrid::{evaluate_hybrid_with_clock, evaluate_topk, compile_lineage_to_sdd_with_clock, LineageStore, SeedSnapshot}", "shared::sdd"], "simulated": ["HybridClock (SimClock: numbered readings, scripted step and jump)", "sdd_node_budget", "std RandomState keys"], "not_run": []}) }
+}
+
+
+// ---------------------------------------------------------------------------------------------------------------------
+// the real pipeline: Reasoner::infer_new_facts_with_hybrid (materialize_lineage + evaluate_hybrid through SystemHybridClock,
+// which reads the scripted clock under cfg(kolibrie_verif))
+use models::datalog::{self as dm, Fact};
+use std::collections::BTreeSet;
+fn gen_pipeline(r: &mut Rng) -> Pipeline {
+    let nn = 3 + r.usize(3); let node = |r: &mut Rng| format!("n{}", r.usize(nn));
+    let nseed = 2 + r.usize(8);
+    let mut seeded: Vec<(Fact, f64)> = vec![];
+    while seeded.len() < nseed { let f = (node(r), format!("b{}", r.usize(2)), node(r)); if !seeded.iter().any(|(g, _)| *g == f) { seeded.push((f, match r.below(5) { 0 => 0.5, 1 => 1.0, 2 => 0.0, _ => r.below(1000) as f64 / 1000.0 })); } }
+    let certain: Vec<Fact> = (0..r.usize(4)).map(|_| (node(r), format!("b{}", r.usize(2)), node(r))).filter(|f| !seeded.iter().any(|(g, _)| g == f)).collect();
+    // layered predicates keep the dependency graph acyclic: b* (base) < d1 < d2
+    let layer_preds = |r: &mut Rng, below: usize| -> String { match r.usize(below) { 0 => format!("b{}", r.usize(2)), k => format!("d{}", k) } };
+    let mut rules = vec![];
+    for _ in 0..(1 + r.usize(3)) {
+        let head_layer = 1 + r.usize(2);
+        let k = 1 + r.usize(2); let vars = ["?x", "?y", "?z"];
+        let prem: Vec<dm::Pat> = (0..k).map(|i| (vars[i].to_string(), layer_preds(r, head_layer), vars[i + 1].to_string())).collect();
+        let used: Vec<String> = prem.iter().flat_map(|p| [p.0.clone(), p.2.clone()]).collect();
+        let neg = if r.chance(1, 6) { vec![(r.pick(&used).clone(), "b0".to_string(), r.pick(&used).clone())] } else { vec![] };
+        rules.push(dm::Rule { prem, neg, conc: vec![(r.pick(&used).clone(), format!("d{}", head_layer), r.pick(&used).clone())], filt: vec![] });
+    }
+    Pipeline { seeded, certain, rules }
+}
+fn exec_pipeline(c: &HybCase, p: &Pipeline, ctx: &mut Ctx) -> Option<Violation> {
+    use datalog::reasoning::Reasoner;
+    use shared::rule::Rule;
+    use shared::terms::Term;
+    if p.seeded.is_empty() || p.seeded.len() > 12 { return None; }
+    let cfg = to_config(&c.cfg);
+    if cfg.validate().is_err() { return None; }
+    // a negative rule's conclusion predicate must feed no premise (one top stratum), as in C05
+    let neg_heads: BTreeSet<String> = p.rules.iter().filter(|r| !r.neg.is_empty()).flat_map(|r| r.conc.iter().map(|c| c.1.clone())).collect();
+    if p.rules.iter().any(|r| r.prem.iter().chain(r.neg.iter()).any(|q| neg_heads.contains(&q.1))) { ctx.hit("unstratified_pipeline_skipped"); return None; }
+    let build = || -> Option<(Reasoner, SeedSnapshot)> {
+        let mut re = Reasoner::new();
+        let enc = |re: &Reasoner, t: &str| re.dictionary.write().unwrap().encode(t);
+        let mut specs = vec![];
+        for (i, (f, pr)) in p.seeded.iter().enumerate() { let t = Triple { subject: enc(&re, &f.0), predicate: enc(&re, &f.1), object: enc(&re, &f.2) }; specs.push(SeedSpec::Independent { triple: t, prob: *pr, seed_id: i as u32 }); }
+        for f in &p.certain { re.add_abox_triple(&f.0, &f.1, &f.2); }
+        for ru in &p.rules {
+            let term = |re: &Reasoner, x: &str| if x.starts_with('?') { Term::Variable(x[1..].to_string()) } else { Term::Constant(enc(re, x)) };
+            let pat = |re: &Reasoner, q: &dm::Pat| (term(re, &q.0), term(re, &q.1), term(re, &q.2));
+            let rule = Rule { premise: ru.prem.iter().map(|q| pat(&re, q)).collect(), negative_premise: ru.neg.iter().map(|q| pat(&re, q)).collect(), filters: vec![], conclusion: ru.conc.iter().map(|q| pat(&re, q)).collect() };
+            re.try_add_rule(rule).ok()?;
+        }
+        Some((re, SeedSnapshot::from_seed_specs(&specs).ok()?))
+    };
+    // possible-worlds oracle: a derived fact's probability = weight of the worlds (subsets of the seeded facts) in which it is in the stratified model
+    let n = p.seeded.len();
+    let certain: BTreeSet<Fact> = p.certain.iter().cloned().collect();
+    let mut prob: std::collections::BTreeMap<Fact, f64> = std::collections::BTreeMap::new();
+    for w in 0..(1u32 << n) {
+        let mut weight = 1.0; let mut facts = certain.clone();
+        for (i, (f, pr)) in p.seeded.iter().enumerate() { if (w >> i) & 1 == 1 { weight *= pr; facts.insert(f.clone()); } else { weight *= 1.0 - pr; } }
+        if weight == 0.0 { continue; }
+        for f in dm::stratified_model(&facts, &p.rules) { *prob.entry(f).or_insert(0.0) += weight; }
+    }
+    let run = |step: u64, jump: u64| -> Option<(Result<Vec<(Fact, HybridProbabilityResult)>, String>, u64, bool)> {
+        let (mut re, snap) = build()?;
+        kolibrie_verif_rt::hybrid_clock::install(step, jump);
+        let r = re.infer_new_facts_with_hybrid(snap, &cfg);
+        let reads = kolibrie_verif_rt::hybrid_clock::reads(); let jumped = kolibrie_verif_rt::hybrid_clock::jumped();
+        kolibrie_verif_rt::hybrid_clock::uninstall();
+        let d = re.dictionary.read().unwrap();
+        let out = r.map(|(_, results, _)| results.into_iter().map(|(t, res)| ((d.decode(t.subject).unwrap_or("?").to_string(), d.decode(t.predicate).unwrap_or("?").to_string(), d.decode(t.object).unwrap_or("?").to_string()), res)).collect::<Vec<_>>()).map_err(|e| e.to_string());
+        Some((out, reads, jumped))
+    };
+    let Some((r0, reads, _)) = run(c.step_ns, 0) else { ctx.hit("pipeline_build_rejected_skipped"); return None };
+    let judge_all = |res: &Vec<(Fact, HybridProbabilityResult)>, tag: &str| -> Option<Violation> {
+        for (f, r) in res { let pstar = prob.get(f).copied().unwrap_or(0.0); if let Some(mut v) = judge(r, pstar, c.cfg.threshold) { v.detail = format!("infer_new_facts_with_hybrid, {}: derived fact {:?}: {} [{:?}]", tag, f, v.detail, r.reason()); v.class = format!("pipeline-{}", v.class); return Some(v); } }
+        None
+    };
+    match &r0 {
+        Err(e) => { ctx.hit("pipeline_rejected_by_engine"); ev!(ctx.log, "pipeline rejected: {}", e); return None; }
+        Ok(res) => {
+            ev!(ctx.log, "pipeline fault-free: {} derived facts evaluated, reads={}", res.len(), reads);
+            if let Some(v) = judge_all(res, "fault-free") { return Some(v); }
+            // every fact of the model that is not a seed or certain fact must have been derived and evaluated
+            let derived: BTreeSet<&Fact> = res.iter().map(|(f, _)| f).collect();
+            for f in prob.keys() { if !certain.contains(f) && !p.seeded.iter().any(|(g, _)| g == f) && prob[f] > 1e-12 && !derived.contains(f) { return Some(Violation::new("pipeline-derivable-fact-not-evaluated", format!("fact {:?} is derivable with probability {} but infer_new_facts_with_hybrid returned no result for it", f, prob[f]))); } }
+            if !res.is_empty() { ctx.hit("probe.pipeline_derived_facts_evaluated"); ctx.nontrivial(kolibrie_verif_rt::log::fnv(&format!("{:?}{:?}", p.seeded, p.rules))); }
+        }
+    }
+    let js: Vec<u64> = match &c.faults { Faults::None => vec![], Faults::EveryReading => { let cap = if c.cap == 0 { 200 } else { c.cap }.min(400); if reads <= cap { (1..=reads).collect() } else { let stride = (reads / cap).max(1); (1..=reads).step_by(stride as usize).collect() } }, Faults::JumpAt(sel) => sel.iter().map(|s| 1 + s % reads.max(1)).collect() };
+    for j in js {
+        let Some((r, _, jumped)) = run(c.step_ns, j) else { continue };
+        if jumped { ctx.hit("fault.clock_jump_at_reading"); }
+        if let Ok(res) = &r { if let Some(v) = judge_all(res, &format!("clock jumps at reading {}/{}", j, reads)) { return Some(v); } }
+    }
+    ctx.hit("class.pipeline");
+    ctx.sim_ns += reads * c.step_ns;
+    None
 }
